@@ -10,6 +10,11 @@
 
 package ion
 
+import (
+	"bufio"
+	"io"
+)
+
 // ---------------------------------------------------------------------------
 // Intrinsics understood by the generator.
 
@@ -205,4 +210,207 @@ func specTagLen(length uint64) uint64 {
 		return 1
 	}
 	return 1 + specVarUintLen(length)
+}
+
+// ---------------------------------------------------------------------------
+// Ghost model of the input behind a *bufio.Reader (trusted; see the `model` lines in
+// zz_verif_contracts.go). The stream is the sequence of bytes the underlying io.Reader
+// will deliver before it ends with the error `end` (io.EOF for a well-behaved source,
+// any other non-nil error for a failing one); cur is the number of bytes consumed.
+// How the underlying reader chunks the bytes is invisible through bufio's API, which
+// is why the model has no notion of chunks.
+
+type vcStream struct {
+	data []byte
+	cur  int
+	end  error
+}
+
+// vcStreamOf is the ghost view of r (intrinsic: same object, seen as a vcStream).
+func vcStreamOf(r *bufio.Reader) *vcStream { return nil }
+
+// vcStreamOfReader is vcStreamOf for a *bufio.Reader held in an io.Reader.
+func vcStreamOfReader(r io.Reader) *vcStream { return nil }
+
+// vcStreamWF is the well-formedness of the ghost stream.
+func vcStreamWF(s *vcStream) bool {
+	return s != nil && 0 <= s.cur && s.cur <= len(s.data) && s.end != nil
+}
+
+func vcAvail(s *vcStream) int { return len(s.data) - s.cur }
+
+func vcModelReadByte(r *bufio.Reader) (byte, error) {
+	s := vcStreamOf(r)
+	if s.cur < len(s.data) {
+		c := s.data[s.cur]
+		s.cur++
+		return c, nil
+	}
+	return 0, s.end
+}
+
+func vcModelDiscard(r *bufio.Reader, n int) (int, error) {
+	s := vcStreamOf(r)
+	if n < 0 {
+		return 0, bufio.ErrNegativeCount
+	}
+	avail := len(s.data) - s.cur
+	if n <= avail {
+		s.cur += n
+		return n, nil
+	}
+	s.cur = len(s.data)
+	return avail, s.end
+}
+
+// Peek never consumes. More than the buffer size (4096 for bufio.NewReader) cannot be
+// peeked: bufio reports ErrBufferFull, a non-nil error like any other here.
+func vcModelPeek(r *bufio.Reader, n int) ([]byte, error) {
+	s := vcStreamOf(r)
+	if n < 0 {
+		return nil, bufio.ErrNegativeCount
+	}
+	avail := len(s.data) - s.cur
+	if n > 4096 {
+		return s.data[s.cur:s.cur], bufio.ErrBufferFull
+	}
+	if n <= avail {
+		return s.data[s.cur : s.cur+n], nil
+	}
+	return s.data[s.cur:], s.end
+}
+
+func vcModelReadFull(r io.Reader, buf []byte) (int, error) {
+	s := vcStreamOfReader(r)
+	n := len(buf)
+	if n == 0 {
+		return 0, nil
+	}
+	avail := len(s.data) - s.cur
+	if n <= avail {
+		copy(buf, s.data[s.cur:s.cur+n])
+		s.cur += n
+		return n, nil
+	}
+	copy(buf, s.data[s.cur:])
+	s.cur = len(s.data)
+	if avail == 0 {
+		return 0, s.end
+	}
+	if s.end == io.EOF {
+		return avail, io.ErrUnexpectedEOF
+	}
+	return avail, s.end
+}
+
+// ---------------------------------------------------------------------------
+// Binary reader: representation invariant of the bitstream.
+
+func bsTopEnd(b *bitstream) uint64 { return b.stack.arr[len(b.stack.arr)-1].end }
+
+// bsCore: the input is attached and well formed; container ends are nested (adjacent
+// form); the cursor does not pass the innermost end.
+func bsCore(b *bitstream) bool {
+	return bsStream(b) && b.state <= bssOnFieldID && bsNested(b) && bsPos(b)
+}
+
+// bsStream: the input is attached and its ghost stream is well formed.
+func bsStream(b *bitstream) bool { return b.in != nil && vcStreamWF(vcStreamOf(b.in)) }
+
+// bsNested: every container on the stack ends no later than the one enclosing it.
+func bsNested(b *bitstream) bool {
+	return vcForallInt(func(j int) bool {
+		return !(0 < j && j < len(b.stack.arr)) || b.stack.arr[j].end <= b.stack.arr[j-1].end
+	})
+}
+
+// bsPos: the cursor has not passed the end of the innermost container.
+func bsPos(b *bitstream) bool { return len(b.stack.arr) == 0 || b.pos <= bsTopEnd(b) }
+
+// bsInv: bsCore, and a current value lies inside the innermost container.
+func bsInv(b *bitstream) bool {
+	return bsCore(b) &&
+		(len(b.stack.arr) == 0 || b.state != bssOnValue || b.len <= bsTopEnd(b)-b.pos)
+}
+
+// bsRoom: at least n more bytes fit into the innermost container.
+func bsRoom(b *bitstream, n uint64) bool {
+	return len(b.stack.arr) == 0 || n <= bsTopEnd(b)-b.pos
+}
+
+// specVarUintStop: the n bytes at data[p:] form one VarUInt: the stop bit is set on the
+// last byte and on no earlier one.
+func specVarUintStop(data []byte, p int, n uint64) bool {
+	ok := data[p+int(n)-1]&0x80 != 0
+	for i := uint64(0); i < 10; i++ {
+		if i+1 < n && data[p+int(i)]&0x80 != 0 {
+			ok = false
+		}
+	}
+	return ok
+}
+
+// specVarUintEnd: the length of the VarUInt that starts at the cursor of s: the number
+// of bytes up to and including the first one that carries the stop bit, looking at no
+// more than 10 bytes and never past the end of the data; 0 if there is none.
+func specVarUintEnd(s *vcStream) uint64 {
+	for i := 0; i < 10; i++ {
+		if s.cur+i >= len(s.data) {
+			return 0
+		}
+		if s.data[s.cur+i]&0x80 != 0 {
+			return uint64(i + 1)
+		}
+	}
+	return 0
+}
+
+// specVarUintValue: big-endian fold of the low seven bits of the n bytes at data[p:]
+// (modulo 2^64, as a 10-byte VarUInt can carry 70 bits).
+func specVarUintValue(data []byte, p int, n uint64) uint64 {
+	v := uint64(0)
+	for i := uint64(0); i < 10; i++ {
+		if i < n {
+			v = v<<7 | uint64(data[p+int(i)]&0x7F)
+		}
+	}
+	return v
+}
+
+// specBitcode is the type code of a tag's high nibble (Ion binary spec, "Typed Value
+// Formats"); 15 is reserved.
+func specBitcode(high int) bitcode {
+	switch high {
+	case 0:
+		return bitcodeNull
+	case 1:
+		return bitcodeFalse
+	case 2:
+		return bitcodeInt
+	case 3:
+		return bitcodeNegInt
+	case 4:
+		return bitcodeFloat
+	case 5:
+		return bitcodeDecimal
+	case 6:
+		return bitcodeTimestamp
+	case 7:
+		return bitcodeSymbol
+	case 8:
+		return bitcodeString
+	case 9:
+		return bitcodeClob
+	case 10:
+		return bitcodeBlob
+	case 11:
+		return bitcodeList
+	case 12:
+		return bitcodeSexp
+	case 13:
+		return bitcodeStruct
+	case 14:
+		return bitcodeAnnotation
+	}
+	return bitcodeNone
 }
